@@ -2,6 +2,7 @@
 //! properties: C02 C09
 //! note: claim path of a forwarded HTLC (channelmanager.rs claim_funds_from_htlc_forward_hop / claim_mpp_part): what is to happen once the upstream claim's monitor update is durable frees the DOWNSTREAM channel of the blocker derived from the upstream hop (never another channel, never another blocker) and carries the forwarding event; a duplicate claim replayed during start-up frees nothing now; the completion action of a new claim is queued under the claiming channel, behind those already there, and the callback is told the value claimed; a duplicate claim's action waits while any monitor update of the channel is in flight; the preimage update for a closed channel takes the id right after the last one the manager gave out for that channel and carries exactly this preimage
 //! trusted: R15 (deep slices): claim_funds_from_htlc_forward_hop: the completion closure's body verbatim as a function of its two parameters and the captured values (the blocker expression is captured from the top of the function; the cfg(test) block is dropped by R2); claim_mpp_part: NewClaim arm (the call of the callback and the statement tracking its action), the in-flight test of the DuplicateClaim arm, the closed-channel statements that number and build the preimage update; make_payment_forwarded_event / completion_action are generic FnOnce parameters specified by their own requires/ensures
+//! trusted: R15 (deep slice): handle_monitor_update_completion_actions: the EmitEventOptionAndFreeOtherChannel and FreeDuplicateClaimImmediately arms verbatim inside a match over the extracted enum; the manager is a recorder (queue_event stands for pending_events.lock().unwrap().push_back, handle_monitor_update_release logs its arguments; `&self` written `&mut self`)
 //! trusted: R16: `&events::Event::PaymentForwarded { .. }` inside matches! written without the `&`; env: the HashMap<ChannelId, Vec<MonitorUpdateCompletionAction>> is an environment type whose entry API carries the std contracts, written with Verus' mutable-reference prophecy (as in u02b); struct EventUnblockedChannel and enum MonitorUpdateCompletionAction are extracted over skeleton field types
 //! trusted: assume_specification for core::cmp::max / core::cmp::min (std definitions): present in every unit so that a change that introduces them is verified instead of being rejected by the tool
 use vstd::prelude::*;
@@ -72,6 +73,45 @@ pub enum Event { PaymentForwarded { opaque: u64 }, Other { opaque: u64 } }
     downstream_channel_id: ChannelId([0; 32]),
 //@end
 
+
+// ---- running the action once the upstream claim is durable (handle_monitor_update_completion_actions) ----
+pub struct ManagerStub { pub events: Ghost<Seq<(Event, Option<u64>)>>, pub released: Ghost<Seq<(PublicKey, ChannelId, Option<RAAMonitorUpdateBlockingAction>)>> }
+impl ManagerStub {
+    #[verifier::external_body] pub fn queue_event(&mut self, e: (Event, Option<u64>))
+        ensures final(self).events@ == old(self).events@.push(e), final(self).released@ == old(self).released@ { unimplemented!() }
+    #[verifier::external_body] pub fn handle_monitor_update_release(&mut self, counterparty_node_id: PublicKey, channel_id: ChannelId, completed_blocker: Option<RAAMonitorUpdateBlockingAction>)
+        ensures final(self).released@ == old(self).released@.push((counterparty_node_id, channel_id, completed_blocker)), final(self).events@ == old(self).events@ { unimplemented!() }
+//@extract lightning/src/ln/channelmanager.rs :: impl ChannelManager :: fn handle_monitor_update_completion_actions
+//@strip events
+//@slice R15
+    MonitorUpdateCompletionAction::EmitEventOptionAndFreeOtherChannel { event, downstream_counterparty_and_funding_outpoint, } => { $a:any }, MonitorUpdateCompletionAction::FreeDuplicateClaimImmediately { downstream_counterparty_node_id, downstream_channel_id, blocking_action, } => { $b:any },
+//@with
+    fn run_the_action_of_a_durable_forwarded_claim(&mut self, action: MonitorUpdateCompletionAction) {
+        match action {
+            MonitorUpdateCompletionAction::PaymentClaimed { .. } => {},
+            MonitorUpdateCompletionAction::EmitEventOptionAndFreeOtherChannel { event, downstream_counterparty_and_funding_outpoint, } => { $a },
+            MonitorUpdateCompletionAction::FreeDuplicateClaimImmediately { downstream_counterparty_node_id, downstream_channel_id, blocking_action, } => { $b },
+        }
+    }
+//@rw R5
+    self.pending_events.lock().unwrap().push_back((event, None));
+//@with
+    self.queue_event((event, None));
+//@requires
+    !(action is PaymentClaimed),
+//@ensures P C02,C09 once-the-upstream-claim-is-durable-the-forwarding-event-is-queued-and-the-downstream-channel-named-in-the-action-is-released-of-exactly-the-blocker-named-in-it
+    action matches MonitorUpdateCompletionAction::EmitEventOptionAndFreeOtherChannel { event, downstream_counterparty_and_funding_outpoint: d } ==> (
+        final(self).events@ == (if event is Some { old(self).events@.push((event->Some_0, None::<u64>)) } else { old(self).events@ })
+        && final(self).released@ == old(self).released@.push((d.counterparty_node_id, d.channel_id, Some(d.blocking_action)))),
+    action matches MonitorUpdateCompletionAction::FreeDuplicateClaimImmediately { downstream_counterparty_node_id, blocking_action, downstream_channel_id } ==> (
+        final(self).events@ == old(self).events@
+        && final(self).released@ == old(self).released@.push((downstream_counterparty_node_id, downstream_channel_id, Some(blocking_action)))),
+//@mutant downstream_channel_released_without_naming_the_blocker
+    Some(downstream_counterparty_and_funding_outpoint.blocking_action),
+//@with
+    None,
+//@end
+}
 // ---- the per-channel list of completion actions (monitor_update_blocked_actions) ----
 pub type Actions = Seq<MonitorUpdateCompletionAction>;
 pub struct ActionMap { pub m: Ghost<Map<ChannelId, Actions>> }
